@@ -18,6 +18,7 @@ import (
 	"sort"
 	"strconv"
 	"strings"
+	"syscall"
 	"testing"
 
 	"verifsim/choice"
@@ -281,6 +282,16 @@ func (o *outFile) json(tag string, v any) {
 // function (test binaries are the workers because testing/synctest needs a
 // *testing.T).
 func Main(t *testing.T, c Check) {
+	if mb := envInt("VERIF_MEM_LIMIT_MB", 0); mb > 0 {
+		// Address-space limit of this worker: an allocation of gigabytes by
+		// the code under test fails at once ("fatal error: out of memory",
+		// triaged by the driver as a crash of the run in progress) instead
+		// of exhausting the machine.
+		lim := syscall.Rlimit{Cur: uint64(mb) << 20, Max: uint64(mb) << 20}
+		if err := syscall.Setrlimit(syscall.RLIMIT_AS, &lim); err != nil {
+			t.Fatalf("setrlimit: %v", err)
+		}
+	}
 	mode := os.Getenv("VERIF_MODE")
 	if mode == "" {
 		// Plain `go test`: a small smoke range, failing the test on violation.
@@ -372,9 +383,13 @@ func smoke(t *testing.T, c Check) {
 			return r
 		}, 0, n, []map[string]bool{nil})
 	}
-	for i := 0; i < n; i++ {
+	trace := os.Getenv("VERIF_SMOKE_TRACE") != ""
+	for i := envInt("VERIF_SMOKE_FROM", 0); i < n; i++ {
 		seed := choice.Mix(base, c.Prop, uint64(i))
 		r := newRun(c, w, seed, i, choice.New(seed), nil)
+		if trace {
+			fmt.Fprintf(os.Stderr, "SMOKE run %d\n", i)
+		}
 		if v := c.Exec(r); v != nil {
 			nfail++
 			if nfail <= envInt("VERIF_SMOKE_SHOW", 1) {
@@ -385,8 +400,8 @@ func smoke(t *testing.T, c Check) {
 				}
 			} else {
 				d := v.Detail
-				if len(d) > 300 {
-					d = d[:300]
+				if n := envInt("VERIF_SMOKE_DETAIL", 300); len(d) > n {
+					d = d[:n]
 				}
 				t.Errorf("run %d: %s: %s", i, v.Class, d)
 			}
